@@ -102,8 +102,14 @@ def _guard_found(eng, c, f, exc, tokens):
     f = eng.cfunc(f, paths=False)  # canonical form: a guard moved into a private helper, a renamed or split temporary, a negated test are the same guard
     node = f.node
     if tokens == ["<except ValueError>"]:
-        # try: X.index(name) except ValueError: raise ValueError
-        for t in ast.walk(node):
+        # try: X.index(name) except ValueError: raise ValueError  - in the function itself or in a private helper of the same class that it calls
+        nodes = [node]
+        for c_ in ast.walk(node):
+            if isinstance(c_, ast.Call) and isinstance(c_.func, ast.Attribute) and isinstance(c_.func.value, ast.Name) and c_.func.value.id == "self" and c_.func.attr.startswith("_") and f.cls is not None:
+                h_ = f.cls.find_method(c_.func.attr)
+                if h_ is not None and hasattr(h_, "node"):
+                    nodes.append(h_.node)
+        for t in (x for nd in nodes for x in ast.walk(nd)):
             if isinstance(t, ast.Try):
                 has_index = any(isinstance(x, ast.Call) and isinstance(x.func, ast.Attribute) and x.func.attr == "index" for b in t.body for x in ast.walk(b))
                 for h in t.handlers:
